@@ -3,6 +3,7 @@
 //! harness is an ordinary `pub fn` so that `bin/check replay` can run it
 //! natively on the values of a solver counterexample (see `sym`).
 #![recursion_limit = "512"]
+#![cfg_attr(kani, feature(core_io_borrowed_buf, read_buf, core_io))]
 #![allow(dead_code, unused_imports, unused_variables, unused_mut, clippy::all)]
 
 pub mod env;
@@ -22,6 +23,10 @@ pub mod inst;
 pub mod c01;
 pub mod c04;
 pub mod c05;
+/// seeded generated definitions (C05 thorough tier); empty unless $VH_GEN_FILE is set at build time
+pub mod c05gen {
+    include!(concat!(env!("OUT_DIR"), "/c05_gen.rs"));
+}
 pub mod c06;
 pub mod c07;
 pub mod fsenv;
